@@ -170,3 +170,49 @@ def ordinary_template_renders_as_upstream(x: str, n: int, flag: bool) -> bool:
     except Exception as e:
         b, eb = None, type(e).__name__
     return a == b and (ea is None) == (eb is None)
+
+
+# environment HISTORY: an overlay environment (other lexer settings) derived from a parent that has / has not compiled a template before
+_OV = [
+    (dict(trim_blocks=True, lstrip_blocks=True), "  {% if flag %}" + LF + "  {{ x }}" + LF + "  {% endif %}" + LF + "z"),
+    (dict(variable_start_string="${", variable_end_string="}"), "[${ x }][{{ x }}]"),
+    (dict(block_start_string="<%", block_end_string="%>"), "<% if flag %>{{ x }}<% endif %>{% if flag %}"),
+    (dict(line_statement_prefix="%%"), "%% if flag" + LF + "{{ x }}" + LF + "%% endif" + LF),
+]
+
+
+OV_WHICH = int(os.environ.get("C19_OVW", "-1"))
+# The subject is environment HISTORY (lexer caches): building environments and compiling templates of two engines under tracing costs minutes per
+# path, so under CrossHair the context is pinned (x = "a", flag) and only the history bit is explored; the whole finite space below is executed
+# natively (a concrete run, labelled as such in the evidence)
+UNDER_XH = os.environ.get("VERIF_UNDER_CROSSHAIR") == "1"
+
+
+def _overlay_run(mod: typing.Any, x: str, flag: bool, which: int, parent_used_first: bool) -> typing.Tuple[typing.Optional[str], typing.Optional[str]]:
+    kw, src = _OV[which]
+    try:
+        parent = mod.Environment(loader=mod.DictLoader(_ORD_ALL), keep_trailing_newline=True)
+        if parent_used_first:
+            parent.get_template("expr").render(x=x)
+        ov = parent.overlay(**kw)
+        out = ov.from_string(src).render(x=x, flag=flag)
+        again = parent.get_template("if").render(x=x, flag=flag, n=0)          # and the parent still lexes with ITS settings
+        return out + "|" + again, None
+    except Exception as e:
+        return None, type(e).__name__
+
+
+def overlay_environment_renders_as_upstream(x: str, flag: bool, which: int, parent_used_first: bool) -> bool:
+    """
+    pre: len(x) <= 1 and all(c in SIG for c in x) and 0 <= which < len(_OV) and (OV_WHICH < 0 or which == OV_WHICH)
+    pre: (not UNDER_XH) or (x == "a" and flag)
+    post: _
+    """
+    import nunavut.jinja.jinja2 as bundled
+    a, ea = _overlay_run(bundled, x, flag, which, parent_used_first)
+    b, eb = _overlay_run(_up, x, flag, which, parent_used_first)
+    return a == b and (ea is None) == (eb is None)
+
+
+NATIVE_SMOKE = {"overlay_environment_renders_as_upstream": [(x, f, w, u) for x in ("", "a", " ", LF) for f in (False, True) for w in range(len(_OV)) for u in (False, True)
+                                                            if OV_WHICH < 0 or w == OV_WHICH]}
